@@ -42,8 +42,9 @@ class SiftProbe:
     It also enforces the logical step bound: more than `bound(max_iters)` envelope evaluations
     inside one extraction aborts the call with MonitorAbort (termination decided on steps)."""
 
-    def __init__(self, sift_mod, slack=4):
+    def __init__(self, sift_mod, slack=4, keep_inputs=False):
         self.S = sift_mod
+        self.keep_inputs = keep_inputs
         self.records = []
         self._cur = None
         self.slack = slack
@@ -71,6 +72,9 @@ class SiftProbe:
         outer = self._cur
         rec = {'env': 0, 'none': 0, 'bound': 2 * (int(mi) + 1) + self.slack, 'max_iters': mi,
                'stop': kw.get('stop_method', 'sd')}
+        if self.keep_inputs:
+            rec['X'] = np.array(X, dtype=float).reshape(-1).copy()
+            rec['kw'] = kw
         self._cur = rec
         try:
             out = self._orig_gni(X, *a, **k)
